@@ -22,3 +22,35 @@ Definition check (fx : fixes) (c : case) : verdict :=
      v_prop := spec_ok q (c_pl c) (c_rule c) (c_obs c);
      v_guards := guards [(1%Z, guard_F1 q (c_rule c) && negb (fx_f1 fx)); (2%Z, guard_F2 q); (3%Z, guard_F3 q (c_rule c));
                          (4%Z, guard_F4 q (c_pl c) && negb (fx_f4 fx)); (5%Z, guard_F5 (c_rule c))] |}.
+
+(** * units: Backend.CreateURL on arbitrary url.URL values *)
+
+Record ucase := { uc_in : hurl; uc_host : string; uc_rw : option rewriter;
+                  uo_url : hurl; uo_escaped : string; uo_uri : string }.
+Definition hu s h p rp q := {| u_scheme := s; u_host := h; u_path := p; u_rawpath := rp; u_query := q |}.
+Definition ucs i h rw o e u := {| uc_in := i; uc_host := h; uc_rw := rw; uo_url := o; uo_escaped := e; uo_uri := u |}.
+
+(** the property on the observation: the scheme is the rewrite's or the
+    original; the host is forward_to.host; what the upstream decodes is what
+    the transformed path decodes to (no double encoding, C15_decoded_path); the
+    query is the original without the removed parameters *)
+Definition uprop (c : ucase) : bool :=
+  let u := uc_in c in
+  let o := uo_url c in
+  String.eqb (u_host o) (uc_host c) &&
+  match uc_rw c with
+  | None =>
+    String.eqb (u_scheme o) (u_scheme u) && String.eqb (u_query o) (u_query u) &&
+    option_eqb String.eqb (unescape (uo_escaped c)) (Some (u_path u))
+  | Some rw =>
+    String.eqb (u_scheme o) (if is_empty (rw_scheme rw) then u_scheme u else rw_scheme rw) &&
+    query_removed (rw_strip_q rw) (u_query u) (u_query o) &&
+    let raw' := (rw_add rw ++ strip_prefix (rw_cut rw) (escaped_path (u_path u) (u_rawpath u)))%string in
+    (negb (wellformed raw') || option_eqb String.eqb (unescape (uo_escaped c)) (unescape raw'))
+  end.
+
+Definition ucheck (fx : fixes) (c : ucase) : verdict :=
+  let m := create_url_fx (fx_f1 fx) {| b_host := uc_host c; b_rw := uc_rw c |} (uc_in c) in
+  {| v_corr := hurl_eqb m (uo_url c) && String.eqb (wire_path m) (uo_escaped c) && String.eqb (wire_uri m) (uo_uri c);
+     v_prop := uprop c;
+     v_guards := [] |}.
